@@ -43,6 +43,30 @@ def run(ctx):
             cases.append({'id': 'a%d' % i, 'kind': 'absent', 'bytes': b'', 'line': 'pbo a%d %s %s' % (i, hexf(b''), hexf('absent'))})
     impl, model = vc.run_cases(ctx, cases, timeout_ms=15000)
     n_or = n_mm = 0
+    # two archives mounted side by side under different prefixes, holding entries of the same names: reads alternate
+    # between them; each read must deliver the bytes of the entry of the archive the prefix belongs to
+    pairs = []
+    for i in range(150 if quick else 2500):
+        (pa, ia), (pb, ib) = g.pair()
+        da, db = pbogen.pack(pa, ia), pbogen.pack(pb, ib)
+        want = []
+        for k in range(max(len(ia), len(ib))):
+            if k < len(ia):
+                want.append(hx(ia[k]['content']))
+            if k < len(ib):
+                want.append(hx(ib[k]['content']))
+        pairs.append({'id': 'q%d' % i, 'want': 'r=' + ''.join(w + ';' for w in want), 'line': 'pbo2 q%d %s %s' % (i, hexf(da), hexf(db)), 'a': da, 'b': db})
+    pimpl, _ = ctx.run_pair([c['line'] for c in pairs], timeout_ms=15000, model=False)
+    n_pair_bad = 0
+    for c in pairs:
+        got = pimpl.get(c['id'])
+        if got != c['want']:
+            n_or += 1
+            n_pair_bad += 1
+            if n_pair_bad <= 3:
+                rep.violation('oracle', {'property': 'C17', 'kind': 'two archives side by side', 'seed': ctx.seed, 'case': c['id'], 'archive_a_hex': c['a'].hex()[:3000],
+                                         'archive_b_hex': c['b'].hex()[:3000], 'difference': {'expected (entries of A and B alternately)': c['want'][:1500], 'implementation': (got or '')[:1500]},
+                                         'line': c['line'][:9000]})
     # thorough: the same files through an AddressSanitizer/UBSan build of the current tree — a read or write
     # outside a buffer, or an allocation the sanitizer refuses, ends the case with a signal
     n_asan = n_asan_bad = 0
@@ -120,8 +144,8 @@ def run(ctx):
                                                      'file_hex': c['bytes'].hex()[:4000], 'implementation': mine[:2000], 'model': (model.get(c['id']) or '')[:2000],
                                                      'line': c['line'][:9000]})
     cov = {'evaluations': len(cases), 'distinct_nontrivial': len(distinct),
-           'rule': 'archives produced by an independent Python packer (0-5 entries with backslash directory names, empty/text/binary/large contents, 0-3 properties with and without prefix, with and without checksum trailer), each also damaged four times (truncation at a random point, single bit flip, a 32-bit field overwritten with a huge value, inserted bytes, all zeros, random bytes), plus an absent file; every file is written to a scratch directory, opened through pbofile as the command line does, listed, every entry read through the archive and through the virtual file system, and the directory compared before/after; oracle: well-formed archives list exactly the packed properties/entries/bytes, damaged ones are rejected or expose only complete entries inside the file, nothing is created or modified; the Lean parser model must give the same listing and bytes for every file, damaged ones included; distinct by file bytes',
-           'samples': samples, 'oracle_failures': n_or, 'model_mismatches': n_mm, 'case_kinds': kinds, 'outcomes': outcomes, 'generator_counts': g.stats, 'sanitizer_cases': n_asan, 'sanitizer_failures': n_asan_bad}
+           'rule': 'archives produced by an independent Python packer (0-5 entries with backslash directory names, empty/text/binary/large contents, 0-3 properties with and without prefix, with and without checksum trailer), each also damaged four times (truncation at a random point, single bit flip, a 32-bit field overwritten with a huge value, inserted bytes, all zeros, random bytes), plus an absent file; plus entries whose names differ only in letter case (distinct entries), and pairs of archives mounted side by side under different prefixes with entries of the same names read alternately; every file is written to a scratch directory, opened through pbofile as the command line does, listed, every entry read through the archive and through the virtual file system, and the directory compared before/after; oracle: well-formed archives list exactly the packed properties/entries/bytes, damaged ones are rejected or expose only complete entries inside the file, nothing is created or modified; the Lean parser model must give the same listing and bytes for every file, damaged ones included; distinct by file bytes',
+           'samples': samples, 'oracle_failures': n_or, 'model_mismatches': n_mm, 'case_kinds': kinds, 'outcomes': outcomes, 'generator_counts': g.stats, 'sanitizer_cases': n_asan, 'sanitizer_failures': n_asan_bad, 'archive_pairs': len(pairs), 'archive_pair_failures': n_pair_bad}
     return rep.finish(cov, ['reads past the end and oversized allocations are observed only in the thorough tier (AddressSanitizer/UBSan build of the current tree); the model reads only inside the byte string by construction',
                             'compressed and encrypted entries are listed with their stored bytes; no decompression exists in the implementation',
                             'entry names are restricted to letters, digits, dots and backslash-separated directories for the virtual file system part'])
